@@ -39,9 +39,15 @@ InsiderOK ==
   /\ Ev.registered => Ev.mhassecret                                   \* AuthOnRegister
   /\ (Ev.mhassecret /\ Ev.proof = "own") => Ev.registered              \* who knows the secret is admitted
 
+(*  {"ev":"relay","vrole","prole","challenge","resp":"P"|"M","ack":"P"|"M","registered":B}                        *)
+(*   a router M in a handshake with the victim V and with an honest router P at the same time hands V messages   *)
+(*   P made for M (HandshakeRelay.tla).  P never spoke on V's connection and M does not hold P's key.            *)
+RelayOK == ~Ev.registered                                             \* NoLinkWithoutProof
+
 TraceNext == /\ l <= Len(Trace) /\ l' = l + 1
              /\ \/ (Ev.ev = "setup" /\ SetupOK = TRUE)
                 \/ (Ev.ev = "insider" /\ InsiderOK = TRUE)
+                \/ (Ev.ev = "relay" /\ RelayOK = TRUE)
 
 TraceAccepted ==
   LET dd == TLCGet("stats").diameter
